@@ -2376,6 +2376,72 @@ func ruleCommandsIndependent(c *Ctx, rule string) {
 			sl, ok := t.Underlying().(*types.Slice)
 			return ok && mT != nil && types.Identical(sl.Elem(), mT)
 		}
+		// the loops over the files inside the command loop (natural loops whose body indexes a list of names): what a file yields
+		// depends on the command and on the file, not on the files before it
+		for _, nl := range naturalLoops(fn) {
+			if !in[nl.head] || len(nl.blocks) == len(loop) {
+				continue
+			}
+			overNames := false
+			for b := range nl.blocks {
+				for _, y := range b.Instrs {
+					if ia, ok := y.(*ssa.IndexAddr); ok {
+						if sl, ok := ia.X.Type().Underlying().(*types.Slice); ok {
+							if bt, ok := sl.Elem().Underlying().(*types.Basic); ok && bt.Kind() == types.String {
+								overNames = true
+							}
+						}
+					}
+				}
+			}
+			if !overNames {
+				continue
+			}
+			for _, y := range nl.head.Instrs {
+				x, ok := y.(*ssa.Phi)
+				if !ok {
+					continue
+				}
+				fromOut, fromIn := false, false
+				var inEdges []ssa.Value
+				for i, p := range nl.head.Preds {
+					if i < len(x.Edges) {
+						if nl.blocks[p] {
+							fromIn = true
+							inEdges = append(inEdges, x.Edges[i])
+						} else {
+							fromOut = true
+						}
+					}
+				}
+				if !fromOut || !fromIn || isResultList(x.Type()) {
+					continue
+				}
+				if sl, ok := x.Type().Underlying().(*types.Slice); ok {
+					if bt, ok := sl.Elem().Underlying().(*types.Basic); ok && bt.Kind() == types.String {
+						continue // the list of names being expanded
+					}
+				}
+				if bt, ok := x.Type().Underlying().(*types.Basic); ok && bt.Info()&types.IsInteger != 0 {
+					// a range index steps by one
+					step := true
+					for _, e := range inEdges {
+						bo, ok := e.(*ssa.BinOp)
+						if !ok || bo.Op != token.ADD || bo.X != ssa.Value(x) {
+							step = false
+							continue
+						}
+						if k, ok := constInt(bo.Y); !ok || k != 1 {
+							step = false
+						}
+					}
+					if step {
+						continue
+					}
+				}
+				bad = append(bad, fmt.Sprintf("%s (%s) is carried from one file to the next [%s]", exprStr(x), types.TypeString(x.Type(), shortQual), c.pos(x.Pos())))
+			}
+		}
 		for _, b := range loop {
 			for _, ins := range b.Instrs {
 				switch x := ins.(type) {
@@ -2652,4 +2718,43 @@ func appendsOwnElements(call *ssa.Call, sameList func(ssa.Value) bool) bool {
 		}
 	}
 	return n > 0
+}
+
+type natLoop struct {
+	head   *ssa.BasicBlock
+	blocks map[*ssa.BasicBlock]bool
+}
+
+// naturalLoops: one per loop header (back edges b -> h with h dominating b; the bodies of several back edges to one header are merged).
+func naturalLoops(fn *ssa.Function) []natLoop {
+	byHead := map[*ssa.BasicBlock]map[*ssa.BasicBlock]bool{}
+	for _, b := range fn.Blocks {
+		for _, h := range b.Succs {
+			if !h.Dominates(b) {
+				continue
+			}
+			body := byHead[h]
+			if body == nil {
+				body = map[*ssa.BasicBlock]bool{h: true}
+				byHead[h] = body
+			}
+			work := []*ssa.BasicBlock{b}
+			for len(work) > 0 {
+				x := work[len(work)-1]
+				work = work[:len(work)-1]
+				if body[x] {
+					continue
+				}
+				body[x] = true
+				work = append(work, x.Preds...)
+			}
+		}
+	}
+	var out []natLoop
+	for _, b := range fn.Blocks {
+		if body := byHead[b]; body != nil {
+			out = append(out, natLoop{b, body})
+		}
+	}
+	return out
 }
